@@ -141,7 +141,8 @@ struct Value {
         setTypeToArray();
     }
 
-    inline explicit Value(StringT &&str) noexcept : string_{Memory::Move(str)} {
+    inline explicit Value(StringT &&str) noexcept {
+        string_ = Memory::Move(str);
         setTypeToString();
     }
 
@@ -153,32 +154,40 @@ struct Value {
         setTypeToArray();
     }
 
-    inline explicit Value(const StringT &str) noexcept : string_{str} {
+    inline explicit Value(const StringT &str) noexcept {
+        string_ = str;
         setTypeToString();
     }
 
-    inline explicit Value(const StringViewT &str) noexcept : string_{str.First(), str.Length()} {
+    inline explicit Value(const StringViewT &str) noexcept {
+        string_ = StringT{str.First(), str.Length()};
         setTypeToString();
     }
 
-    inline explicit Value(const Char_T *str, SizeT length) : string_{str, length} {
+    inline explicit Value(const Char_T *str, SizeT length) {
+        string_ = StringT{str, length};
         setTypeToString();
     }
 
-    inline explicit Value(SizeT64 num) noexcept : number_{num} {
+    inline explicit Value(SizeT64 num) noexcept {
+        number_ = num;
         setTypeToUInt64();
     }
 
-    inline explicit Value(SizeT64I num) noexcept : number_{num} {
+    inline explicit Value(SizeT64I num) noexcept {
+        number_ = num;
         setTypeToInt64();
     }
 
-    inline explicit Value(double num) noexcept : number_{num} {
+    inline explicit Value(double num) noexcept {
+        number_ = num;
         setTypeToDouble();
     }
 
     template <typename Number_T>
-    explicit Value(Number_T num) noexcept : number_{num} {
+    explicit Value(Number_T num) noexcept {
+        number_ = num;
+
         if QENTEM_CONST_EXPRESSION (IsFloat<Number_T>()) {
             setTypeToDouble();
         } else if QENTEM_CONST_EXPRESSION (IsUnsigned<Number_T>()) {
